@@ -70,6 +70,12 @@ def run(env, tier, seed, broken=None):
         'rterr1': '%s "s";\n%s %s();\n%s 1 / 0;\n%s %s();\n' % (PRINT, PRINT, INPUT, PRINT, PRINT, INPUT),
         'rterr2': '%s nope;\n%s %s();\n' % (PRINT, PRINT, INPUT),
         'eof': '%s %s();\n%s %s();\n%s %s();\n%s %s();\n%s %s();\n%s "done";\n' % ((PRINT, INPUT) * 5 + (PRINT,)),
+        # order on stdout of printed lines and prompts, inside loops, functions and nested loops, small and large volumes
+        'loopio': '%s i = 0;\n%s (i < 3) {\n  %s "step " + i;\n  %s v = %s("n? ");\n  %s "got " + v;\n  i = i + 1;\n}\n%s "end";\n' % (VAR, WHILE, PRINT, VAR, INPUT, PRINT, PRINT),
+        'forio': '%s (%s i = 0; i < 3; i = i + 1) {\n  %s "step " + i;\n  %s "got " + %s("n? ");\n}\n%s "end";\n%s %s("last? ");\n' % (FOR, VAR, PRINT, PRINT, INPUT, PRINT, PRINT, INPUT),
+        'fnio': '%s ask(k) { %s "ask " + k; %s %s("k? "); }\n%s (%s i = 0; i < 2; i = i + 1) { %s j = 0; %s (j < 2) { %s ask(i * 2 + j); j = j + 1; } }\n%s "end";\n' % (FUN, PRINT, RETURN, INPUT, FOR, VAR, VAR, WHILE, PRINT, PRINT),
+        'bigio': '%s i = 0;\n%s (i < 400) { %s "a line of some length " + i; i = i + 1; %s (i == 200) { %s %s("mid? "); } }\n%s %s("after? ");\n' % (VAR, WHILE, PRINT, IF, PRINT, INPUT, PRINT, INPUT),
+        'loopfail': '%s i = 0;\n%s (i < 5) { %s "it " + i; %s (i == 2) { %s %s("p? "); %s nope; } i = i + 1; }\n%s "unreached";\n' % (VAR, WHILE, PRINT, IF, PRINT, INPUT, PRINT, PRINT),
         'inputargs': '%s %s(1);\n' % (PRINT, INPUT), 'inputargs2': '%s %s("a", "b");\n' % (PRINT, INPUT),
     }
     cases = corpus_cases('C19')
@@ -104,7 +110,7 @@ def run(env, tier, seed, broken=None):
         r = ri2[c['id']][0]
         nontriv.add((r['status'], r['stdout'], r['stderr'][:30]))
         k = c.get('klass')
-        want = {'clean': None, 'lexerr': 65, 'synerr': 65, 'rterr1': 70, 'rterr2': 70, 'rterr': 70}.get(k)
+        want = {'clean': None, 'lexerr': 65, 'synerr': 65, 'rterr1': 70, 'rterr2': 70, 'rterr': 70, 'loopfail': 70}.get(k)
         if want and r['status'] != want:
             mism.append({'case': c, 'reason': 'class %s ended with status %s' % (k, r['status'])})
         if r['status'] == 0 and r['stderr'] != b'':
